@@ -228,6 +228,70 @@ func main() {
 //go:linkname other main.impl
 `
 
+// directivePositions: one file per place a comment can be attached to or float at; the go:linkname
+// directive (the one kind of comment that changes the compiled code) is put there.
+var directivePositions = []string{"PKGDOC", "IMPORTDECLDOC", "IMPORTDOC", "IMPORTTRAIL", "FLOAT1", "FUNCDOC", "FUNCDOC2", "FUNCTRAIL", "TYPEDOC", "FIELDDOC", "FIELDTRAIL", "CONSTDOC", "CONSTTRAIL", "VARDOC", "LOCALDOC", "LOCALTRAIL", "STMTTRAIL", "BODYFLOAT", "LITFLOAT", "ENDFLOAT", "BLOCKFORM"}
+
+const directiveTemplate = `<PKGDOC>package main
+
+<IMPORTDECLDOC>import (
+	<IMPORTDOC>_ "unsafe" <IMPORTTRAIL>
+)
+
+<FLOAT1>
+func impl(x int) int { return x + 1 }
+
+<FUNCDOC>func other(x int) int <FUNCTRAIL>
+
+<TYPEDOC>type T struct {
+	<FIELDDOC>a int <FIELDTRAIL>
+}
+
+const (
+	<CONSTDOC>K = 1 <CONSTTRAIL>
+)
+
+<VARDOC>var g = func() int {
+	<LITFLOAT>
+	return K
+}()
+
+func main() {
+	<LOCALDOC>var v = other(1) <LOCALTRAIL>
+	v += g <STMTTRAIL>
+	<BODYFLOAT>
+	println(v, T{}.a)
+}
+<ENDFLOAT>`
+
+// DirectiveFile renders the template with the directive at one position.
+func DirectiveFile(pos string) string {
+	const dir = "//go:linkname other main.impl"
+	t := directiveTemplate
+	for _, p := range directivePositions {
+		rep := ""
+		if p == pos || pos == "FUNCDOC2" && p == "FUNCDOC" {
+			switch {
+			case pos == "FUNCDOC2":
+				rep = "// other is provided by impl.\n" + dir + "\n//go:noinline\n"
+			case strings.HasSuffix(p, "TRAIL"):
+				rep = dir
+			case strings.HasSuffix(p, "FLOAT") || p == "FLOAT1":
+				rep = dir + "\n"
+			case p == "PKGDOC":
+				rep = "// Package main.\n" + dir + "\n"
+			default:
+				rep = dir + "\n"
+			}
+		}
+		if pos == "BLOCKFORM" && p == "FUNCDOC" {
+			rep = "/* not a directive in this form */\n" + dir + "\n"
+		}
+		t = strings.ReplaceAll(t, "<"+p+">", rep)
+	}
+	return t
+}
+
 // ParseSources parses the given file texts into a Sources value.
 func ParseSources(importPath string, texts []string) (*sources.Sources, error) {
 	fset := token.NewFileSet()
@@ -320,13 +384,17 @@ func newCache() *cache.BuildCache {
 
 // Transparency: Store, Load into a fresh Sources; structural equality and identical compilation.
 func Transparency(r *Result) {
+	corpus := Corpus()
+	for _, p := range directivePositions {
+		corpus["directive-"+p] = []string{DirectiveFile(p)}
+	}
 	names := []string{}
-	for n := range Corpus() {
+	for n := range corpus {
 		names = append(names, n)
 	}
 	sort.Strings(names)
 	for _, name := range names {
-		texts := Corpus()[name]
+		texts := corpus[name]
 		for _, minify := range []bool{false, true} {
 			id := fmt.Sprintf("C20/transparent/%s/minify=%v", name, minify)
 			r.Evaluations++
@@ -360,6 +428,13 @@ func Transparency(r *Result) {
 			ca, ea := compileSources(ref, minify)
 			cb, eb := compileSources(restored, minify)
 			switch {
+			case ea != nil && strings.HasPrefix(name, "directive-"):
+				// a directive in a place where the compiler rejects it: the restored package must be rejected the same way
+				if eb == nil || eb.Error() != ea.Error() {
+					r.viol(id+"/compile", fmt.Sprintf("fresh package is rejected (%v), package restored from the cache: %v", ea, eb))
+				} else {
+					r.Nontrivial++
+				}
 			case ea != nil:
 				r.viol(id+"/compile-ref", "corpus does not compile (generator bug): "+ea.Error())
 			case eb != nil:
@@ -530,8 +605,8 @@ func Isolation(r *Result) {
 		}
 	}
 	// (5) the package under test is never cached
-	for _, tested := range []string{"", "p", "q"} {
-		for _, ip := range []string{"p", "p_test", "q", "q_test", "pp"} {
+	for _, tested := range []string{"", "p", "q", "p_test", "a/e2e_test", "a/b"} {
+		for _, ip := range []string{"p", "p_test", "q", "q_test", "pp", "p_test_test", "a/e2e_test", "a/e2e_test_test", "a/e2e", "a/b", "a/b_test", "b", "a"} {
 			r.Evaluations++
 			cache.Clear()
 			plain := newCache()
@@ -540,13 +615,13 @@ func Isolation(r *Result) {
 			isTested := tested != "" && (ip == tested || ip == tested+"_test")
 			stored := tb.Store(&blob{"x"}, ip, now)
 			if stored == isTested {
-				r.viol(fmt.Sprintf("C20/tested/tested=%s/path=%s/store", tested, ip), fmt.Sprintf("Store returned %v", stored))
+				r.viol(fmt.Sprintf("C20/tested/tested=%s/path=%s/store", strings.ReplaceAll(tested, "/", "_"), strings.ReplaceAll(ip, "/", "_")), fmt.Sprintf("Store returned %v", stored))
 			}
 			// an entry stored by an ordinary build must not be served for the package under test
 			plain.Store(&blob{"y"}, ip, now)
 			var got blob
 			if hit := tb.Load(&got, ip, now); hit == isTested {
-				r.viol(fmt.Sprintf("C20/tested/tested=%s/path=%s/load", tested, ip), fmt.Sprintf("Load returned %v", hit))
+				r.viol(fmt.Sprintf("C20/tested/tested=%s/path=%s/load", strings.ReplaceAll(tested, "/", "_"), strings.ReplaceAll(ip, "/", "_")), fmt.Sprintf("Load returned %v", hit))
 			}
 		}
 	}
@@ -646,6 +721,93 @@ func Damage(r *Result, root string, stride int) {
 	}
 }
 
+// LargeDamage: entries whose decompressed size crosses typical buffer sizes (64 KiB, 1 MiB, several MiB), with
+// incompressible and compressible content; damage at spread positions, in the 8-byte trailer and at the end.
+func LargeDamage(r *Result, root string, thorough bool) {
+	sizes := []int{65535, 65536 + 17, 1<<20 - 1, 1<<20 + 1, 3 << 20}
+	if thorough {
+		sizes = append(sizes, 6<<20, 1<<20, 2<<20+5)
+	}
+	for _, size := range sizes {
+		for _, kind := range []string{"noise", "text"} {
+			cache.Clear()
+			buf := make([]byte, size)
+			x := uint32(12345)
+			for i := range buf {
+				if kind == "noise" {
+					x = x*1664525 + 1013904223
+					buf[i] = byte(x >> 24)
+				} else {
+					buf[i] = "the quick brown fox jumps over the lazy dog\n"[i%44]
+				}
+			}
+			content := string(buf)
+			bc := newCache()
+			now := time.Now()
+			name := fmt.Sprintf("%s-%d", kind, size)
+			if !bc.Store(&blob{content}, "big", now) {
+				r.viol("C20/largedamage/"+name, "Store failed")
+				continue
+			}
+			p, err := entryPath(root)
+			if err != nil {
+				r.viol("C20/largedamage/"+name, err.Error())
+				continue
+			}
+			good, _ := os.ReadFile(p)
+			classify := func(id string, data []byte) {
+				r.Evaluations++
+				os.WriteFile(p, data, 0o644)
+				var got blob
+				res := "miss"
+				func() {
+					defer func() {
+						if e := recover(); e != nil {
+							res = fmt.Sprintf("PANIC escapes Load: %v", e)
+						}
+					}()
+					if bc.Load(&got, "big", now.Add(-time.Hour)) {
+						if got.S == content {
+							res = "hit-identical"
+						} else {
+							res = fmt.Sprintf("hit with DIFFERENT contents (%d bytes, stored %d)", len(got.S), len(content))
+						}
+					}
+				}()
+				r.Counts[res[:3]]++
+				switch res {
+				case "miss":
+					r.Nontrivial++
+				case "hit-identical":
+					// allowed only when the damage did not touch anything that is checked (e.g. a header field gzip ignores)
+				default:
+					r.viol(id, res)
+				}
+			}
+			n := len(good)
+			var offs []int
+			for k := 0; k < 24; k++ {
+				offs = append(offs, 10+k*(n-30)/24)
+			}
+			for k := 1; k <= 12; k++ {
+				offs = append(offs, n-k) // the gzip trailer (CRC32, ISIZE) and the end of the deflate stream
+			}
+			for _, off := range offs {
+				for _, mask := range []byte{0x01, 0x80} {
+					d := append([]byte{}, good...)
+					d[off] ^= mask
+					classify(fmt.Sprintf("C20/largedamage/%s/flip=%d/mask=%02x", name, off, mask), d)
+				}
+			}
+			for _, cut := range []int{1, 2, 3, 4, 5, 7, 8, 9, 12, 16, 100, n / 2, n - 20} {
+				classify(fmt.Sprintf("C20/largedamage/%s/cut=%d", name, cut), good[:n-cut])
+			}
+			classify(fmt.Sprintf("C20/largedamage/%s/intact", name), good)
+		}
+	}
+	cache.Clear()
+}
+
 // RunAll executes the in-process layers. root is the cache root (XDG_CACHE_HOME/gopherjs/build_cache).
 func RunAll(root string, thorough bool) Result {
 	r := Result{Counts: map[string]int{}}
@@ -656,5 +818,6 @@ func RunAll(root string, thorough bool) Result {
 		stride = 1
 	}
 	Damage(&r, root, stride)
+	LargeDamage(&r, root, thorough)
 	return r
 }
